@@ -143,6 +143,8 @@ def good_value(rng, kind, key, form=None, dims=None):
         v = gen.sd(rng, lo, hi)
         if rng.random() < 0.08 and key not in ("vo", "eff", "pwr", "ii") and not (kind in ("rload",) and key == "rs"):
             v = 0.0
+        elif rng.random() < 0.1 and key in ("iq", "ig", "iis", "pwrs", "ii", "pwr"):
+            v = float("%.3g" % (10 ** rng.uniform(-11, -7)))      # nano-power parts: a value is "given" however small it is
     if key != "eff" and rng.random() < 0.2:
         v = -v
     return v
